@@ -91,7 +91,8 @@ func checkC15(c *Ctx) {
 		[]string{`^` + cur + `\.` + q(fComp) + `$`, `^0 == ` + cur + `\.` + q(fPos) + `$`, `^` + cur + `\.` + q(fPos) + ` <= 0$`},
 		[]Req{
 			{"PreviousComputed(previous != nil)", `^pr\.` + q(fPrev) + ` != nil$`},
-			{"PreviousIsPredecessor(previous.position == position-1)", `^\(` + cur + `\.` + q(fPos) + `-1\) == pr\.` + q(fPrev) + `\.` + q(fPos) + `$|^pr\.` + q(fPrev) + `\.` + q(fPos) + ` == \(` + cur + `\.` + q(fPos) + `-1\)$`},
+			// previous.position == position-1, or the same equation with the 1 on the other side
+			{"PreviousIsPredecessor(previous.position == position-1)", `^\(` + cur + `\.` + q(fPos) + `-1\) == pr\.` + q(fPrev) + `\.` + q(fPos) + `$|^pr\.` + q(fPrev) + `\.` + q(fPos) + ` == \(` + cur + `\.` + q(fPos) + `-1\)$|^\((?:1\+pr\.` + q(fPrev) + `\.` + q(fPos) + `|pr\.` + q(fPrev) + `\.` + q(fPos) + `\+1)\) == ` + cur + `\.` + q(fPos) + `$|^` + cur + `\.` + q(fPos) + ` == \((?:1\+pr\.` + q(fPrev) + `\.` + q(fPos) + `|pr\.` + q(fPrev) + `\.` + q(fPos) + `\+1)\)$`},
 		})
 
 	vb, vc := NewIView(bind), NewIView(cc)
@@ -513,6 +514,9 @@ func freshByteSlice(v ssa.Value) bool {
 			base := stripConv(x.Call.Args[0])
 			if isNilConst(base) {
 				return true
+			}
+			if _, isMake := base.(*ssa.MakeSlice); isMake {
+				return true // append(make([]byte, 0, n), x...)
 			}
 			if sl, ok := base.(*ssa.Slice); ok && sl.Max != nil {
 				if k, ok := constInt(sl.Max); ok && k == 0 {
